@@ -199,6 +199,19 @@ def split_cases(count, seed, K):
         chains = ["AA"] + rng.sample(["BB", "C", "D9"], rng.randint(0, 2))
         atoms = _build(rng, K, chains, lambda ch: [(rng.choice([1, 10000]), ""), (rng.choice([2, 20000]), "A")])
         out.append({"id": f"fs{seed}-{k}", "kind": "split", "gen": "split", "fmt": "cif", "atoms": atoms})
+    # a two-model file in which only ONE model exceeds the PDB limits: the tool writes one file per model, the
+    # model that fits must come out as it is, the other one fitted
+    for k in range(max(2, count // 3)):
+        fits = _build(rng, K, rng.sample(list("BCD"), 2), lambda ch: [(rng.choice([1, 7]), ""), (rng.choice([8, 12]), "")],
+                      models=(1,))
+        wide = _build(rng, K, ["AA"] + rng.sample(list("BC"), 1),
+                      lambda ch: [(rng.choice([1, 10000]), ""), (rng.choice([2, 20000]), "A")], models=(2,),
+                      serial0=len(fits) + 1)
+        pair = [fits, wide] if k % 2 == 0 else [[dict(a, model=1) for a in wide], [dict(a, model=2) for a in fits]]
+        atoms = pair[0] + pair[1]
+        for i, a in enumerate(atoms):
+            a["serial"] = i + 1
+        out.append({"id": f"fx{seed}-{k}", "kind": "split", "gen": "split-mixed", "fmt": "cif", "atoms": atoms})
     return out
 
 
@@ -431,6 +444,23 @@ def _record_split(case, rng):
         finally:
             sys.argv = argv
         msg = se.getvalue()
+        models = sorted({a["model"] for a in case["atoms"]})
+        if len(models) > 1:
+            # one trace case per model: its rows in, the rows of its own output file out
+            res = []
+            for m in models:
+                cm = dict(c, id=f"{case['id']}-m{m}", inp=[r for r in c["inp"] if r["model"] == m], out=[], back=[])
+                fn = os.path.join(outdir, f"in_model_{m}.pdb")
+                if not cm["err"] and "Error" in msg:
+                    cm["err"] = "ValueError" if "Error fitting" in msg else "ToolReportedError"
+                elif not cm["err"] and not os.path.exists(fn):
+                    cm["err"] = "NoOutputFile"
+                if not cm["err"]:
+                    with open(fn) as f:
+                        cm["out"] = pt.project(p2.parse_pdb_atoms(f.read()))["rows"]
+                    cm["back"] = cm["out"]
+                res.append(cm)
+            return res
         fn = os.path.join(outdir, "in_model_1.pdb")
         if not c["err"] and "Error fitting" in msg:
             c["err"] = "ValueError"                       # the tool's own report of fit_to_pdb's refusal
